@@ -68,3 +68,35 @@ def run(P, R, tier):
     _own2 = _oe2.Own(P)
     for k_ in ("gmm:e_step", "gmm:log_weighted_likelihood", "gmm:reduce_loglikelihood", "gmm:log_likelihood"):
         _oe2.check_inplace_views(P, R, _own2, k_)
+
+    # POL: signs, placement and the one-half of log w_c - 1/2 (g_c + sum (x - mu_c)^2 / var_c)
+    from ..engines import pol as _pol
+    _f = P.func("gmm:log_weighted_likelihood")
+    _pp = _pol.Pol(P, _f, track_coef=True, track_inv=True)
+    _terms = list(dict.fromkeys(_pp.value_terms()))
+    _dp = _f.value_params[0]
+
+    def _has(a, *suffixes):
+        return any(x.split(".")[-1].lstrip("_") in suffixes for x in a)
+    n_pol = 0
+    for s_, a in _terms:
+        base = {x[2:] if x.startswith("1/") else x for x in a if not x.startswith("#") and not x.startswith("1/#")}
+        is_var = _has(base, "variances")
+        is_mean = _has(base, "means")
+        is_data = _dp in base
+        label = _pol.fmt_terms([(s_, a)])
+        if _has(base, "log_weights", "weights") and not is_var and not _has(base, "g_norms"):
+            n_pol += 1
+            R.check(s_ > 0 and abs(_pol.coef_value(a) - 1) < 1e-12, "POL.lwl", _f.key, f"log-weight term {label}", "+1 · log w_c", "the log-weights do not enter the weighted log-likelihood with coefficient +1")
+        elif _has(base, "g_norms"):
+            n_pol += 1
+            R.check(s_ < 0 and abs(_pol.coef_value(a) - 0.5) < 1e-12, "POL.lwl", _f.key, f"normaliser term {label}", "-1/2 · g_c", "the Gaussian normaliser does not enter the weighted log-likelihood as -1/2 · g_c: the value is not the log of a normalised density")
+        elif is_var:
+            n_pol += 1
+            inv = any(x.startswith("1/") and x.split(".")[-1].lstrip("_") == "variances" for x in a)
+            want = 1 if (is_data and is_mean) else -1
+            R.check(inv and s_ == want and abs(_pol.coef_value(a) - 0.5) < 1e-12, "POL.lwl", _f.key, f"quadratic-form term {label}", "-1/2 · (x - mu)^2 / var expanded", "the Mahalanobis term does not enter the weighted log-likelihood as -1/2 · (x - mu)^2 / var")
+    R.floor("POL.lwl terms", n_pol, 5)
+
+
+EXPLANATION += " Also (POL): the return value of log_weighted_likelihood is expanded into signed monomials; the log-weights enter with +1, the cached normaliser with -1/2, the quadratic form as -1/2 (x - mu)^2 / var (x^2 and mu^2 negative, the cross term positive, the variance in the denominator)."
